@@ -1,0 +1,49 @@
+// Copyright 2026 The Mellium Contributors.
+// Use of this source code is governed by the BSD 2-clause
+// license that can be found in the LICENSE file.
+
+//go:build verif
+
+package muc
+
+import (
+	"encoding/xml"
+
+	"mellium.im/xmlstream"
+)
+
+// VerifPayload is what the verification harness needs from the unexported
+// join payload.
+type VerifPayload interface {
+	TokenReader() xml.TokenReader
+	WriteXML(w xmlstream.TokenWriter) (int, error)
+	MarshalXML(e *xml.Encoder, start xml.StartElement) error
+}
+
+// VerifJoinConfig applies the options the way the join methods do and returns
+// the payload that is put into the join presence. It only exists in builds
+// with the "verif" tag.
+func VerifJoinConfig(opt ...Option) VerifPayload {
+	conf := config{}
+	for _, o := range opt {
+		o(&conf)
+	}
+	return conf
+}
+
+// VerifJoinConfigFields is the decoded form of a join payload.
+type VerifJoinConfigFields struct {
+	MaxStanzas, MaxChars, Seconds *uint64
+	Since                         *string
+	Password, NewNick             string
+}
+
+// VerifDecodeJoinConfig runs the join payload's UnmarshalXML.
+func VerifDecodeJoinConfig(d *xml.Decoder, start xml.StartElement) (VerifJoinConfigFields, error) {
+	var c config
+	err := (&c).UnmarshalXML(d, start)
+	return VerifJoinConfigFields{
+		MaxStanzas: c.history.maxStanzas, MaxChars: c.history.maxChars, Seconds: c.history.seconds,
+		Since: c.history.since, Password: c.password, NewNick: c.newNick,
+	}, err
+}
